@@ -36,6 +36,11 @@ import (
 const (
 	nStores  = 3
 	nRegions = 2
+	// Elections are normally explicit ops (c.campaign); c.elect and repeated c.tick on a store
+	// that hears no leader let raft's own election timeout fire.  Which follower wins then
+	// depends on raft's randomized timeout - the observed states are part of the trace, so the
+	// replay through the model does not depend on it.
+	electionTick = 10
 )
 
 var regionStart = map[uint64]string{1: "a", 2: "m"}
@@ -51,6 +56,10 @@ type netw struct {
 	mu  sync.Mutex
 	q   []myraft.Message
 	iso [nStores + 1]bool
+	// delayed links: messages from store a to store b are parked (neither delivered nor lost)
+	// until c.release puts them back on the wire, in their original order
+	hold [nStores + 1][nStores + 1]bool
+	held []myraft.Message
 	// counters for the evidence
 	sent, delivered, dropped, duplicated int
 }
@@ -63,7 +72,21 @@ func (n *netw) Send(m myraft.Message) {
 		n.dropped++
 		return
 	}
+	if n.hold[storeOfPeer(m.From)][storeOfPeer(m.To)] {
+		n.held = append(n.held, m)
+		return
+	}
 	n.q = append(n.q, m)
+}
+
+// release ends every delay: the parked messages arrive now (even at a store that has been cut
+// off in the meantime: they were on the wire before the partition).
+func (n *netw) release() {
+	n.mu.Lock()
+	defer n.mu.Unlock()
+	n.hold = [nStores + 1][nStores + 1]bool{}
+	n.q = append(n.q, n.held...)
+	n.held = nil
 }
 
 func (n *netw) take(i int) (myraft.Message, bool) {
@@ -186,7 +209,7 @@ func (k *kit) startStore(s int) {
 		region := &manifest.RegionMeta{ID: r, StartKey: []byte(regionStart[r]), EndKey: []byte(regionEnd[r]),
 			Epoch: manifest.RegionEpoch{Version: 1, ConfVersion: 1}, Peers: metaPeers}
 		cfg := &peer.Config{
-			RaftConfig: myraft.Config{ID: peerID(r, s), ElectionTick: 1 << 30, HeartbeatTick: 1,
+			RaftConfig: myraft.Config{ID: peerID(r, s), ElectionTick: electionTick, HeartbeatTick: 1,
 				MaxSizePerMsg: 1 << 20, MaxInflightMsgs: 256, Logger: hlib.QuietRaftLogger{}},
 			Transport: k.net, GroupID: r, Region: region,
 		}
@@ -817,6 +840,39 @@ func (k *kit) pump() int {
 		k.problems = append(k.problems, "pump: network did not drain within 5000 deliveries")
 	}
 	return n
+}
+
+// connectedLeader returns a store that is not cut off and whose peer of region r is leader.
+func (k *kit) connectedLeader(r uint64) int {
+	for s := 1; s <= nStores; s++ {
+		k.net.mu.Lock()
+		cut := k.net.iso[s]
+		k.net.mu.Unlock()
+		if !cut && k.raftState(r, s) == "leader" {
+			return s
+		}
+	}
+	return 0
+}
+
+// elect lets the clocks of the connected stores run (one tick each, then all messages) until
+// one of them leads region r.
+func (k *kit) elect(r uint64) {
+	for round := 0; round < 400; round++ {
+		if k.connectedLeader(r) != 0 {
+			return
+		}
+		for s := 1; s <= nStores; s++ {
+			k.net.mu.Lock()
+			cut := k.net.iso[s]
+			k.net.mu.Unlock()
+			if !cut {
+				_ = k.peers[peerID(r, s)].Tick()
+				k.collect()
+			}
+		}
+		k.pump()
+	}
 }
 
 // sequences returns the applied write sequence of every (store, region), sorted by key.
